@@ -342,6 +342,8 @@ def check(col: Collector, tier: str):
                        "a result variable declared after the test was translated lands in whatever block the test left open, while it is read outside")
     import_obligations(col, "C02.R10", "c14", lambda o: o.construct == "executor._ib_fetch",
                        "a dropped or de-duplicated injected line (a second `}` or #endif) leaves the generated file unbalanced")
+    import_obligations(col, "C02.R10", "c14", lambda o: o.detail == "one-item-per-line",
+                       "two directives or statements glued into one line are malformed C++ (the second #include is never read)")
     import_obligations(col, "C02.R10", "c14", lambda o: o.construct == "template.atlas:link_libraries",
                        "library names run together name a library that does not exist: the package no longer links what its code includes")
     import_obligations(col, "C02.R10", "c18", lambda o: o.rule == "C18.R2" and o.detail == "non-finite-float-rejected",
